@@ -178,152 +178,8 @@ func runC13(r *R) {
 	r.Rule("C13-R3", "copy-on-write: a buffer being flushed is never modified in place (WriteAt, Truncate); PutB receives the buffer captured under the lock", 4)
 	// ---- R2
 	r.Rule("C13-R2", "flush goroutines: fn.segments[idx] = storedSegment{…} only under fn.Lock(), PutB err==nil, and after re-validating index/identity/flushing token/length", 2)
+	flushSwapRules(r, "C13-R2", "C13-R3")
 	lc := inodeLockClass(map[string]int{})
-	if outer := r.NeedFn("C13-R2", "(*"+arv+".filenode).pruneMemSegments"); outer != nil {
-		n := 0
-		for _, cl := range Closures(outer) {
-			for _, st := range segElemStores(cl) {
-				n++
-				ls := ComputeLocks(cl, lc, lkNone)
-				put := CallsMatching(cl, func(nm string, c *ssa.CallCommon) bool { return bareName(nm) == "PutB" })
-				okPut := len(put) == 1
-				var gErr bool
-				if okPut {
-					gErr, _ = Guard(cl, put[0].(ssa.Instruction), st, ErrNilC(put[0]))
-				}
-				gFl, _ := Guard(cl, nil, st, EqC("seg.flushing == done", FieldVP(arv+".memSegment", "flushing", nil), CanonVP("free:done")))
-				ia := st.Addr.(*ssa.IndexAddr)
-				idxC := Canon(ia.Index)
-				gIdx, _ := Guard(cl, nil, st, LtC("idx < len(fn.segments)", CanonVP(idxC), func(v ssa.Value) bool {
-					return isLenOf(v, func(x ssa.Value) bool { return IsFieldLoad(x, arv+".filenode", "segments") })
-				}))
-				gSame, _ := Guard(cl, nil, st, EqC("fn.segments[idx] == seg", func(v ssa.Value) bool {
-					u, ok := Strip(v).(*ssa.UnOp)
-					if !ok {
-						return false
-					}
-					a, ok := u.X.(*ssa.IndexAddr)
-					return ok && IsFieldLoad(a.X, arv+".filenode", "segments") && Canon(a.Index) == idxC
-				}, func(v ssa.Value) bool { return strings.Contains(Canon(v), "free:seg") }))
-				gLen, _ := Guard(cl, nil, st, EqC("len(seg.buf) == len(buf)", func(v ssa.Value) bool {
-					return isLenOf(v, func(x ssa.Value) bool { return IsFieldLoad(x, arv+".memSegment", "buf") })
-				}, func(v ssa.Value) bool { return isLenOf(v, func(x ssa.Value) bool { return Canon(x) == "free:buf" }) }))
-				locked := ls.At(st) >= lkW
-				r.Check(locked && okPut && gErr && gFl && gIdx && gSame && gLen, "C13-R2", cl, "fn.segments[idx] = storedSegment", st.Pos(),
-					"under fn.Lock, PutB ok, flushing token / index / identity / length re-validated",
-					"segment swap without (lock="+boolS(locked)+" putErr="+boolS(gErr)+" flushing="+boolS(gFl)+" idx="+boolS(gIdx)+" identity="+boolS(gSame)+" length="+boolS(gLen)+")")
-				// R3 part: PutB gets the buffer captured under the lock
-				if okPut {
-					r.Check(Canon(CallArgs(put[0].Common())[0]) == "free:buf", "C13-R3", cl, "PutB(buf)", put[0].Pos(), "writes the buffer captured under the lock", "PutB is given a buffer re-read after the lock was released")
-				}
-			}
-		}
-		if n == 0 {
-			r.Bad("C13-R2", outer, "segment swap", outer.Pos(), "no store into fn.segments[idx] found in the flush goroutine")
-		}
-	}
-	if outer := r.NeedFn("C13-R2", "(*"+arv+".dirnode).commitBlock"); outer != nil {
-		n := 0
-		for _, cl := range Closures(outer) {
-			for _, st := range segElemStores(cl) {
-				n++
-				cut := CorrelatedCut(cl, st) // consistent valuations of the captured, never-written `sync`
-				_ = cut
-				ia := st.Addr.(*ssa.IndexAddr)
-				idxC := Canon(ia.Index)
-				// async mode: all paths on which !sync is true
-				asyncFact := TrueC("sync (synchronous mode: caller holds the lock and waits)", CanonVP("free:sync"))
-				gIdx := GuardOrPass(cl, nil, st, nil, asyncFact, LtC("ref.idx < len(segments)", CanonVP(idxC), func(v ssa.Value) bool {
-					return isLenOf(v, func(x ssa.Value) bool { return IsFieldLoad(x, arv+".filenode", "segments") })
-				}))
-				gSame := GuardOrPass(cl, nil, st, nil, asyncFact, EqC("seg == segs[idx]", func(v ssa.Value) bool {
-					e, ok := Resolve1(v).(*ssa.Extract)
-					if !ok {
-						return false
-					}
-					_, isTA := e.Tuple.(*ssa.TypeAssert)
-					return isTA
-				}, func(v ssa.Value) bool { return strings.Contains(Canon(v), "free:segs") }))
-				gFl := GuardOrPass(cl, nil, st, nil, asyncFact, EqC("seg.flushing == done", FieldVP(arv+".memSegment", "flushing", nil), CanonVP("free:done")))
-				// lock: on async paths Lock() precedes
-				var locks []ssa.Instruction
-				for _, c := range CallsMatching(cl, func(nm string, c *ssa.CallCommon) bool { return lc.Classify(c) == 2 }) {
-					locks = append(locks, c.(ssa.Instruction))
-				}
-				gLock := GuardOrPass(cl, nil, st, locks, asyncFact)
-				put := CallsMatching(cl, func(nm string, c *ssa.CallCommon) bool { return bareName(nm) == "PutB" })
-				gErr := false
-				if len(put) == 1 {
-					gErr, _ = Guard(cl, put[0].(ssa.Instruction), st, ErrNilC(put[0]))
-					r.Check(Canon(CallArgs(put[0].Common())[0]) == "free:block", "C13-R3", cl, "PutB(block)", put[0].Pos(), "writes the block assembled under the lock", "PutB is given something other than the block assembled under the lock")
-				}
-				r.Check(gIdx && gSame && gFl && gLock && gErr, "C13-R2", cl, "ref.fn.segments[ref.idx] = storedSegment", st.Pos(),
-					"PutB ok; in async mode: under ref.fn.Lock with index / identity / flushing token re-validated",
-					"segment swap without (putErr="+boolS(gErr)+" lock="+boolS(gLock)+" idx="+boolS(gIdx)+" identity="+boolS(gSame)+" flushing="+boolS(gFl)+")")
-				// stored length is the segment's *current* buffer length read at swap time
-				cf := compositeFields(st.Val)
-				lenOK := cf["length"] != nil && isLenOf(cf["length"], func(x ssa.Value) bool {
-					return IsFieldLoad(x, arv+".memSegment", "buf") && Before(put[0].(ssa.Instruction), Strip(x).(ssa.Instruction)) || bufLoadAfter(x, put)
-				})
-				r.Check(lenOK, "C13-R2", cl, "storedSegment.length", st.Pos(), "len of the segment's buffer re-read under the lock at swap time", "stored length is not the segment's current length (a truncate during the background write would be undone)")
-			}
-		}
-		if n == 0 {
-			r.Bad("C13-R2", outer, "segment swap", outer.Pos(), "no store into ref.fn.segments[ref.idx] found in the commit goroutine")
-		}
-		// sync mode: spawning function blocks on errs
-		sawWait := false
-		for _, ret := range Returns(outer) {
-			for _, v := range returnOperand(ret, ret.Results[0]) {
-				if u, ok := v.(*ssa.UnOp); ok && u.Op == token.ARROW {
-					g, _ := Guard(outer, nil, ret, TrueC("sync", CanonVP("param:sync")))
-					sawWait = sawWait || g
-				}
-			}
-		}
-		r.Check(sawWait, "C13-R2", outer, "if sync { return <-errs }", outer.Pos(), "in sync mode the lock holder waits for the goroutine", "sync-mode commitBlock no longer waits for its goroutine: the goroutine would write without any lock held")
-		// every non-waiting return is in async mode or before the goroutine started
-	}
-	// ---- R3 memSegment
-	if fn := r.NeedFn("C13-R3", "(*"+arv+".memSegment).WriteAt"); fn != nil {
-		var repl []ssa.Instruction
-		for _, st := range StoresToField(fn, arv+".memSegment", "buf") {
-			// replacement by a fresh slice (append to nil / make)
-			if c, ok := Resolve1(st.Val).(*ssa.Call); ok && CalleeName(c.Common()) == "builtin.append" && IsNilConst(c.Call.Args[0]) {
-				repl = append(repl, st)
-			}
-			if _, ok := Resolve1(st.Val).(*ssa.MakeSlice); ok {
-				repl = append(repl, st)
-			}
-		}
-		for _, c := range CallsIn(fn, "builtin.copy") {
-			ok := GuardOrPass(fn, nil, c.(ssa.Instruction), repl, EqC("me.flushing == nil", FieldVP(arv+".memSegment", "flushing", nil), NilV))
-			r.Check(ok, "C13-R3", fn, "copy(me.buf[off:], p)", c.Pos(), "only when not flushing, or after me.buf was replaced by a private copy", "WriteAt can modify a buffer that a background Keep write is reading")
-		}
-	}
-	if fn := r.NeedFn("C13-R3", "(*"+arv+".memSegment).Truncate"); fn != nil {
-		n := paramOf(fn, "n")
-		for _, st := range StoresToField(fn, arv+".memSegment", "buf") {
-			sl, ok := Resolve1(st.Val).(*ssa.Slice)
-			if !ok || !IsFieldLoad(sl.X, arv+".memSegment", "buf") {
-				continue // fresh buffer
-			}
-			gCap, _ := Guard(fn, nil, st, LeC("n <= cap(me.buf)", Is(n), func(v ssa.Value) bool {
-				c, ok := Resolve1(v).(*ssa.Call)
-				return ok && CalleeName(c.Common()) == "builtin.cap"
-			}))
-			gFl, _ := Guard(fn, nil, st, EqC("me.flushing == nil", FieldVP(arv+".memSegment", "flushing", nil), NilV), LeC("n <= len(me.buf)", Is(n), lenVP))
-			r.Check(gCap && gFl, "C13-R3", fn, "me.buf = me.buf[:n] (in place)", st.Pos(), "only within capacity and (not flushing or not growing)", "a segment being flushed can grow in place and keep its flushing token: the background write's completion would then install stale/foreign bytes (capacity="+boolS(gCap)+" flushing="+boolS(gFl)+")")
-		}
-		// the reallocation arm clears the token
-		cleared := false
-		for _, st := range StoresToField(fn, arv+".memSegment", "flushing") {
-			if IsNilConst(st.Val) {
-				cleared = true
-			}
-		}
-		r.Check(cleared, "C13-R3", fn, "me.flushing = nil on reallocation", fn.Pos(), "token cleared when the buffer is replaced", "buffer replaced without clearing the flushing token")
-	}
 
 	// ---- R4 PAIR
 	r.Rule("C13-R4", "every inode Lock/RLock is released on every path (defer or explicit, consistent with immutable mode flags); every throttle Acquire is followed on every path by a goroutine that always Releases", 15)
@@ -468,4 +324,155 @@ func bufLoadAfter(x ssa.Value, put []ssa.CallInstruction) bool {
 		return false
 	}
 	return IsFieldLoad(u, arv+".memSegment", "buf") && Before(put[0].(ssa.Instruction), u)
+}
+
+// flushSwapRules: the background-flush completion handlers and memSegment copy-on-write (shared by C13 and C08).
+func flushSwapRules(r *R, ruleSwap, ruleCOW string) {
+	lc := inodeLockClass(map[string]int{})
+	if outer := r.NeedFn(ruleSwap, "(*"+arv+".filenode).pruneMemSegments"); outer != nil {
+		n := 0
+		for _, cl := range Closures(outer) {
+			for _, st := range segElemStores(cl) {
+				n++
+				ls := ComputeLocks(cl, lc, lkNone)
+				put := CallsMatching(cl, func(nm string, c *ssa.CallCommon) bool { return bareName(nm) == "PutB" })
+				okPut := len(put) == 1
+				var gErr bool
+				if okPut {
+					gErr, _ = Guard(cl, put[0].(ssa.Instruction), st, ErrNilC(put[0]))
+				}
+				gFl, _ := Guard(cl, nil, st, EqC("seg.flushing == done", FieldVP(arv+".memSegment", "flushing", nil), CanonVP("free:done")))
+				ia := st.Addr.(*ssa.IndexAddr)
+				idxC := Canon(ia.Index)
+				gIdx, _ := Guard(cl, nil, st, LtC("idx < len(fn.segments)", CanonVP(idxC), func(v ssa.Value) bool {
+					return isLenOf(v, func(x ssa.Value) bool { return IsFieldLoad(x, arv+".filenode", "segments") })
+				}))
+				gSame, _ := Guard(cl, nil, st, EqC("fn.segments[idx] == seg", func(v ssa.Value) bool {
+					u, ok := Strip(v).(*ssa.UnOp)
+					if !ok {
+						return false
+					}
+					a, ok := u.X.(*ssa.IndexAddr)
+					return ok && IsFieldLoad(a.X, arv+".filenode", "segments") && Canon(a.Index) == idxC
+				}, func(v ssa.Value) bool { return strings.Contains(Canon(v), "free:seg") }))
+				gLen, _ := Guard(cl, nil, st, EqC("len(seg.buf) == len(buf)", func(v ssa.Value) bool {
+					return isLenOf(v, func(x ssa.Value) bool { return IsFieldLoad(x, arv+".memSegment", "buf") })
+				}, func(v ssa.Value) bool { return isLenOf(v, func(x ssa.Value) bool { return Canon(x) == "free:buf" }) }))
+				locked := ls.At(st) >= lkW
+				r.Check(locked && okPut && gErr && gFl && gIdx && gSame && gLen, ruleSwap, cl, "fn.segments[idx] = storedSegment", st.Pos(),
+					"under fn.Lock, PutB ok, flushing token / index / identity / length re-validated",
+					"segment swap without (lock="+boolS(locked)+" putErr="+boolS(gErr)+" flushing="+boolS(gFl)+" idx="+boolS(gIdx)+" identity="+boolS(gSame)+" length="+boolS(gLen)+")")
+				// R3 part: PutB gets the buffer captured under the lock
+				if okPut {
+					r.Check(Canon(CallArgs(put[0].Common())[0]) == "free:buf", ruleCOW, cl, "PutB(buf)", put[0].Pos(), "writes the buffer captured under the lock", "PutB is given a buffer re-read after the lock was released")
+				}
+			}
+		}
+		if n == 0 {
+			r.Bad(ruleSwap, outer, "segment swap", outer.Pos(), "no store into fn.segments[idx] found in the flush goroutine")
+		}
+	}
+	if outer := r.NeedFn(ruleSwap, "(*"+arv+".dirnode).commitBlock"); outer != nil {
+		n := 0
+		for _, cl := range Closures(outer) {
+			for _, st := range segElemStores(cl) {
+				n++
+				cut := CorrelatedCut(cl, st) // consistent valuations of the captured, never-written `sync`
+				_ = cut
+				ia := st.Addr.(*ssa.IndexAddr)
+				idxC := Canon(ia.Index)
+				// async mode: all paths on which !sync is true
+				asyncFact := TrueC("sync (synchronous mode: caller holds the lock and waits)", CanonVP("free:sync"))
+				gIdx := GuardOrPass(cl, nil, st, nil, asyncFact, LtC("ref.idx < len(segments)", CanonVP(idxC), func(v ssa.Value) bool {
+					return isLenOf(v, func(x ssa.Value) bool { return IsFieldLoad(x, arv+".filenode", "segments") })
+				}))
+				gSame := GuardOrPass(cl, nil, st, nil, asyncFact, EqC("seg == segs[idx]", func(v ssa.Value) bool {
+					e, ok := Resolve1(v).(*ssa.Extract)
+					if !ok {
+						return false
+					}
+					_, isTA := e.Tuple.(*ssa.TypeAssert)
+					return isTA
+				}, func(v ssa.Value) bool { return strings.Contains(Canon(v), "free:segs") }))
+				gFl := GuardOrPass(cl, nil, st, nil, asyncFact, EqC("seg.flushing == done", FieldVP(arv+".memSegment", "flushing", nil), CanonVP("free:done")))
+				// lock: on async paths Lock() precedes
+				var locks []ssa.Instruction
+				for _, c := range CallsMatching(cl, func(nm string, c *ssa.CallCommon) bool { return lc.Classify(c) == 2 }) {
+					locks = append(locks, c.(ssa.Instruction))
+				}
+				gLock := GuardOrPass(cl, nil, st, locks, asyncFact)
+				put := CallsMatching(cl, func(nm string, c *ssa.CallCommon) bool { return bareName(nm) == "PutB" })
+				gErr := false
+				if len(put) == 1 {
+					gErr, _ = Guard(cl, put[0].(ssa.Instruction), st, ErrNilC(put[0]))
+					r.Check(Canon(CallArgs(put[0].Common())[0]) == "free:block", ruleCOW, cl, "PutB(block)", put[0].Pos(), "writes the block assembled under the lock", "PutB is given something other than the block assembled under the lock")
+				}
+				r.Check(gIdx && gSame && gFl && gLock && gErr, ruleSwap, cl, "ref.fn.segments[ref.idx] = storedSegment", st.Pos(),
+					"PutB ok; in async mode: under ref.fn.Lock with index / identity / flushing token re-validated",
+					"segment swap without (putErr="+boolS(gErr)+" lock="+boolS(gLock)+" idx="+boolS(gIdx)+" identity="+boolS(gSame)+" flushing="+boolS(gFl)+")")
+				// stored length is the segment's *current* buffer length read at swap time
+				cf := compositeFields(st.Val)
+				lenOK := cf["length"] != nil && isLenOf(cf["length"], func(x ssa.Value) bool {
+					return IsFieldLoad(x, arv+".memSegment", "buf") && Before(put[0].(ssa.Instruction), Strip(x).(ssa.Instruction)) || bufLoadAfter(x, put)
+				})
+				r.Check(lenOK, ruleSwap, cl, "storedSegment.length", st.Pos(), "len of the segment's buffer re-read under the lock at swap time", "stored length is not the segment's current length (a truncate during the background write would be undone)")
+			}
+		}
+		if n == 0 {
+			r.Bad(ruleSwap, outer, "segment swap", outer.Pos(), "no store into ref.fn.segments[ref.idx] found in the commit goroutine")
+		}
+		// sync mode: spawning function blocks on errs
+		sawWait := false
+		for _, ret := range Returns(outer) {
+			for _, v := range returnOperand(ret, ret.Results[0]) {
+				if u, ok := v.(*ssa.UnOp); ok && u.Op == token.ARROW {
+					g, _ := Guard(outer, nil, ret, TrueC("sync", CanonVP("param:sync")))
+					sawWait = sawWait || g
+				}
+			}
+		}
+		r.Check(sawWait, ruleSwap, outer, "if sync { return <-errs }", outer.Pos(), "in sync mode the lock holder waits for the goroutine", "sync-mode commitBlock no longer waits for its goroutine: the goroutine would write without any lock held")
+		// every non-waiting return is in async mode or before the goroutine started
+	}
+	// ---- R3 memSegment
+	if fn := r.NeedFn(ruleCOW, "(*"+arv+".memSegment).WriteAt"); fn != nil {
+		var repl []ssa.Instruction
+		for _, st := range StoresToField(fn, arv+".memSegment", "buf") {
+			// replacement by a fresh slice (append to nil / make)
+			if c, ok := Resolve1(st.Val).(*ssa.Call); ok && CalleeName(c.Common()) == "builtin.append" && IsNilConst(c.Call.Args[0]) {
+				repl = append(repl, st)
+			}
+			if _, ok := Resolve1(st.Val).(*ssa.MakeSlice); ok {
+				repl = append(repl, st)
+			}
+		}
+		for _, c := range CallsIn(fn, "builtin.copy") {
+			ok := GuardOrPass(fn, nil, c.(ssa.Instruction), repl, EqC("me.flushing == nil", FieldVP(arv+".memSegment", "flushing", nil), NilV))
+			r.Check(ok, ruleCOW, fn, "copy(me.buf[off:], p)", c.Pos(), "only when not flushing, or after me.buf was replaced by a private copy", "WriteAt can modify a buffer that a background Keep write is reading")
+		}
+	}
+	if fn := r.NeedFn(ruleCOW, "(*"+arv+".memSegment).Truncate"); fn != nil {
+		n := paramOf(fn, "n")
+		for _, st := range StoresToField(fn, arv+".memSegment", "buf") {
+			sl, ok := Resolve1(st.Val).(*ssa.Slice)
+			if !ok || !IsFieldLoad(sl.X, arv+".memSegment", "buf") {
+				continue // fresh buffer
+			}
+			gCap, _ := Guard(fn, nil, st, LeC("n <= cap(me.buf)", Is(n), func(v ssa.Value) bool {
+				c, ok := Resolve1(v).(*ssa.Call)
+				return ok && CalleeName(c.Common()) == "builtin.cap"
+			}))
+			gFl, _ := Guard(fn, nil, st, EqC("me.flushing == nil", FieldVP(arv+".memSegment", "flushing", nil), NilV), LeC("n <= len(me.buf)", Is(n), lenVP))
+			r.Check(gCap && gFl, ruleCOW, fn, "me.buf = me.buf[:n] (in place)", st.Pos(), "only within capacity and (not flushing or not growing)", "a segment being flushed can grow in place and keep its flushing token: the background write's completion would then install stale/foreign bytes (capacity="+boolS(gCap)+" flushing="+boolS(gFl)+")")
+		}
+		// the reallocation arm clears the token
+		cleared := false
+		for _, st := range StoresToField(fn, arv+".memSegment", "flushing") {
+			if IsNilConst(st.Val) {
+				cleared = true
+			}
+		}
+		r.Check(cleared, ruleCOW, fn, "me.flushing = nil on reallocation", fn.Pos(), "token cleared when the buffer is replaced", "buffer replaced without clearing the flushing token")
+	}
+
 }
